@@ -48,11 +48,23 @@ func (t *translator) translateFn(fi *fnInfo, emitDep func(*fnInfo)) {
 			nm = c.fresh("unused")
 			c.names[p] = nm
 		}
+		if fi.nilable[p] {
+			c.used[nm+"_o"], c.used[nm+"_isnil"] = true, true
+			fmt.Fprintf(&hdr, " (%s_o : Option %s)", nm, lt)
+			continue
+		}
 		fmt.Fprintf(&hdr, " (%s : %s)", nm, lt)
 	}
 	fmt.Fprintf(&hdr, " : Res (%s) :=\n", c.retT)
+	c.checkNilableUses()
 	// named results are locals
 	var pre strings.Builder
+	for _, p := range fi.params {
+		if fi.nilable[p] {
+			nm := c.name(p)
+			fmt.Fprintf(&pre, "let %s_isnil : Bool := %s_o.isNone;\nlet %s : %s := %s_o.getD %s;\n", nm, nm, nm, c.ltype(fi.decl, p.Type()), nm, c.zero(fi.decl, p.Type()))
+		}
+	}
 	sig := fi.obj.Type().(*types.Signature)
 	for i := 0; i < sig.Results().Len(); i++ {
 		rv := sig.Results().At(i)
@@ -74,6 +86,9 @@ func (t *translator) translateFn(fi *fnInfo, emitDep func(*fnInfo)) {
 	}
 	if fi.usesGlobals || fi.isInit {
 		prims += " (G_ : Globals)"
+	}
+	for _, g := range extGlobalNames(fi) {
+		prims += " (G_" + g + " : Ike.Gen." + g + ".Globals)"
 	}
 	loopPrims := prims // loops carry rnd_ in their state
 	if fi.usesRand {
@@ -1162,6 +1177,9 @@ func loopArgs(fi *fnInfo) string {
 	}
 	if fi.usesGlobals || fi.isInit {
 		s += " G_"
+	}
+	for _, g := range extGlobalNames(fi) {
+		s += " G_" + g
 	}
 	return s
 }
